@@ -18,8 +18,13 @@ def run_config(run, cfg, seed, tag):
     ref = PfiRef(sc.names, cfg["dyn"], ref_alpha(cfg), sc.model, sc.loss)
     for t in range(cfg["steps"]):
         kw = sc.call_kwargs()
-        x, y, ret, log = sc.step(**kw)
         replay = {"cfg": cfg, "seed": seed, "step": t, "kwargs": kw}
+        try:
+            x, y, ret, log = sc.step(**kw)
+        except Exception as ex:
+            run.ok(kind="raised")
+            run.violation("explain-raises", f"{tag} step {t}: explain_one raised {type(ex).__name__}: {ex} on a legal configuration", replay)
+            return
         if t == 0:
             run.ok(kind="first-call")
             stored = [e for e in log if e[0] == "storage.update"]
